@@ -303,7 +303,7 @@ class C12(Prop):
     title = "Template rendering follows the documented grammar; bound values stay data"
     fixed_prefix = 1
     quick_budget = 1500
-    thorough_budget = 30000
+    thorough_budget = 24000
     quick_deadline_s = 100
     thorough_deadline_s = 800
     all_branches = ["cond:then", "cond:else", "cond:noelse", "loop:items", "loop:empty", "loop:notlist", "loop:dict",
